@@ -21,6 +21,7 @@ int Chooser::Choose(int n, int dev_cost) {
   if (i < prefix.size()) {
     c = prefix[i];
     if (c >= n) { diverged = true; c = 0; }
+    // negative values are symbolic and resolved by the caller (-1: the youngest running command)
   }
   taken.push_back(c);
   arity.push_back(n);
@@ -257,6 +258,15 @@ SubprocessSet::WorkResult SubprocessSet::DoWork() {
   }
   int nalt = (int)alts.size() + (cfg.allow_interrupt ? 1 : 0);
   int c = g_cur.ch->Choose(nalt);
+  if (c == -2) {
+    // symbolic: the running command whose id is alphabetically last finishes alone (independent of start order)
+    size_t best = 0;
+    for (size_t i = 1; i < n; ++i)
+      if (R.cmds[running_[i]->pid_].spec.id() > R.cmds[running_[best]->pid_].spec.id()) best = i;
+    c = (int)best;
+  } else if (c < 0) {
+    c = (int)n - 1;   // symbolic: the most recently started command finishes alone
+  }
   if (c >= (int)alts.size()) {
     interrupted_ = SIGINT;
     Record(Event::kInterrupt, -1);
